@@ -331,5 +331,73 @@ def karplus (alpha delay : α) (memory : List α) (n : Nat) : List α :=
   let lm := (taps.map (·.1)).foldl max 0
   ksLoop taps n (ksMemory lm memory)
 
+/-! ### `resample` (lazy_poly.py:538-603) with `lagrange.func` (lazy_poly.py:491-513) -/
+
+/-- `lagrange(enumerate(data))(k)`:
+    `sum(yv[j] * prod((k - rk) / (rj - rk) for rk in xv if rj != rk) for j, rj in enumerate(xv))`
+    with `xv = 0, 1, .., len(data)-1`.  (For a single point the code's `reduce` has nothing to
+    multiply and raises TypeError — see `resample`.) -/
+def lagrangeEnum (data : List α) (k : α) : α :=
+  let xv := List.range data.length
+  xv.foldl (fun (acc : α) (j : Nat) =>
+    acc + data.getD j 0 *
+      ((xv.filter (· ≠ j)).foldl
+        (fun (p : α) (r : Nat) => p * ((k - ((r : Int) : α)) / (((j : Int) : α) - ((r : Int) : α)))) 1)) 0
+
+/-- `while idx > threshold: data.append(next(isig)); idx -= 1` on a `deque(maxlen=order+1)`;
+    `none` when `next(isig)` finds the input exhausted -/
+def resAdvance (thr : α) : List α → α → List α → Option (α × List α × List α)
+  | rest, idx, data =>
+    if thr < idx then
+      match rest with
+      | [] => none
+      | x :: r => resAdvance thr r (idx - 1) (data.drop 1 ++ [x])
+    else some (idx, data, rest)
+
+/-- how a run of the generator ended -/
+inductive ResEnd where
+  | fuel      -- the observer stopped reading
+  | input     -- `next(isig)` raised StopIteration: the input ended
+  | step      -- `next(step)` raised StopIteration: the step stream ended
+  deriving DecidableEq, Repr
+
+/-- the `while True` loops (lines 589-603); `steps = none` : constant `step`, else the stream -/
+def resLoop (thr step : α) : Nat → Option (List α) → α → List α → List α → List α × ResEnd
+  | 0, _, _, _, _ => ([], .fuel)
+  | fuel + 1, steps, idx, data, rest =>
+    let y := lagrangeEnum data idx
+    let next : Option (α × Option (List α)) := match steps with
+      | none => some (step, none)
+      | some [] => none
+      | some (s :: ss) => some (s, some ss)
+    match next with
+    | none => ([y], .step)
+    | some (s, steps') =>
+      match resAdvance thr rest (idx + s) data with
+      | none => ([y], .input)
+      | some (idx', data', rest') =>
+        let r := resLoop thr step fuel steps' idx' data' rest'
+        (y :: r.1, r.2)
+
+/-- `resample(sig, old, new, order, zero)` with `step = old / new` a number or a stream, first
+    `n` outputs and the way the generator ended.  `order = 0` makes `lagrange` raise TypeError at
+    the first output; an input shorter than `rint(threshold)` is outside the model (`resShort`). -/
+def resample (sig : List α) (step : Arg α) (order : Nat) (zero : α) (n : Nat) :
+    Except String (List α × ResEnd) :=
+  if order = 0 then .error "TypeError"
+  else
+    let thr : α := half * (((order + 1 : Nat) : Int) : α)
+    let ntake := order / 2 + 1                    -- rint(threshold)
+    let first := sig.take ntake
+    let data := (List.replicate (order + 1) zero ++ first).drop first.length   -- deque(maxlen)
+    let idx : α := ((((order + 1) / 2 : Nat) : Int) : α)   -- int(threshold)
+    let rest := sig.drop ntake
+    match step with
+    | .num s => .ok (resLoop thr s n none idx data rest)
+    | .strm ss => .ok (resLoop thr 0 n (some ss) idx data rest)
+
+/-- inputs with fewer than `rint(threshold)` samples (today: RuntimeError from `Stream.take`, D1) -/
+def resShort (sig : List α) (order : Nat) : Bool := sig.length < order / 2 + 1
+
 end Arith
 end ALV.C19
